@@ -4,46 +4,10 @@
   which batch the receiver holds) to the filesystem (which events are kept in synced content).
 -/
 import EmitModel.Model.FilePipe
-import EmitModel.Lemmas.Batcher
+import EmitModel.Lemmas.BatcherFrame
 import EmitModel.Thm.C10
 import EmitModel.Thm.C11
 
-namespace EmitModel.Batcher
-
-/-- The batch the receiver holds inside / between `on_batch` calls: (first-attempt items, items of the current or
-    next call). -/
-def Rx.held : Rx → Option (List Nat × List Nat)
-  | .processing o c _ => some (o, c)
-  | .retryWait o r _ => some (o, r)
-  | _ => none
-
-/-- Channel steps other than handing a batch to the processor and the conclusion of a call neither finalise
-    anything nor change the batch the receiver holds (they may only end it, by tearing the receiver down). -/
-theorem chan_frame (cfg : Cfg) (s s' : St) (l : Label) (ho : ∀ o, l ≠ .rxOutcome o) (hb : l ≠ .rxBegin)
-    (hs : step cfg s l = some s') :
-    s'.finalised = s.finalised ∧ (s'.rx.held = none ∨ s'.rx.held = s.rx.held) := by
-  cases l
-  case send x =>
-    step_elim hs
-    obtain ⟨e1, _⟩ := send_rx cfg s x
-    refine ⟨?_, .inr (by rw [e1])⟩
-    unfold send
-    by_cases hc : s.pending.length ≥ cfg.cap <;> by_cases ho : s.isOpen <;> simp [hc, ho, truncate, push]
-  case trySend x =>
-    step_elim hs
-    obtain ⟨e1, _⟩ := trySend_rx cfg s x
-    refine ⟨?_, .inr (by rw [e1])⟩
-    unfold trySend
-    by_cases ho : s.isOpen <;> by_cases hc : s.pending.length < cfg.cap <;> simp [ho, hc, push]
-  case rxOutcome o => exact absurd rfl (ho o)
-  case rxBegin => exact absurd rfl hb
-  all_goals
-    step_elim hs
-    all_goals (first | exact ⟨rfl, .inr rfl⟩ | exact ⟨rfl, .inl rfl⟩ | (constructor <;> simp_all [Rx.held]))
-
-theorem held_afterNotify (ws : List Nat) : (afterNotify ws).held = none := by
-  cases ws <;> rfl
-end EmitModel.Batcher
 
 namespace EmitModel.FilePipe
 open EmitModel EmitModel.FileSet
